@@ -40,6 +40,7 @@ func genMember(seed uint64, tier string, events bool) *Case {
 		"tombstone": int64(g.Pick(3, 10, 30, 60)),
 		"override":  int64(g.Intn(3)),
 		"ghosts":    int64(1 + g.Intn(5)),
+		"nocoord":   int64(g.Pick(0, 0, 0, 1)), // network coordinates switched off
 	}}
 	if events {
 		c.P["events"] = 1
@@ -121,6 +122,7 @@ func execMember(r *Run) {
 		cf.ReconnectTimeout = reconnect
 		cf.TombstoneTimeout = tombstone
 		cf.ReconnectInterval = 1000 * time.Hour
+		cf.DisableCoordinates = r.C.P["nocoord"] == 1
 		if r.C.P["override"] != 0 {
 			cf.ReconnectTimeoutOverride = ov
 		}
